@@ -219,7 +219,7 @@ Proof.
     eapply (dev_key _ _ _ "replicas" (JInt 0) (JInt 0) JNull []); try (vm_compute; reflexivity).
     apply dev_leaf; reflexivity. }
   split; [vm_compute; reflexivity|].
-  eexists. split; vm_compute; reflexivity.
+  eexists. split; [vm_compute; reflexivity | vm_compute; reflexivity].
 Qed.
 
 Print Assumptions C05_drift_detected.
